@@ -18,10 +18,15 @@
 EXTENDS DocModel, Json, CSV
 
 CONSTANTS MaxGrow, MaxGrowExt, MaxShrink,
-          Seed, RandPerKind   \* per kind, RandPerKind pseudo-random subsets of 3..8 fields (seeded; beyond the exhaustive bounds)
+          Seed, RandPerKind,  \* per kind, RandPerKind pseudo-random subsets of 3..8 fields (seeded; beyond the exhaustive bounds)
+          MaxHist             \* histories: up to MaxHist prior documents parsed into the same receiver before the document under test
 
-VARIABLES gcase, gdoc
-vars == <<gcase, gdoc>>
+(* ghist: how the document under test reaches the library.  NoHist = the document line: a fresh receiver  *)
+(* for every reader (all entry points and writers, see Trace_C03!DocTrips).  Otherwise a history line:    *)
+(* entry = the way the ONE receiver is filled, prior = the names of the documents parsed into it before.  *)
+VARIABLES gcase, gdoc, ghist
+vars == <<gcase, gdoc, ghist>>
+NoHist == [entry |-> "fresh", prior |-> <<>>]
 
 ExtModes(kind) == {"none"} \cup (IF ExtOK(kind) THEN {"x"} ELSE {})
                            \cup (IF UnkOK(kind) THEN {"unk", "xu"} ELSE {})
@@ -124,7 +129,22 @@ RandCase(ki, r) ==
        exts == ExtModes(kind)
    IN [mode |-> "rand", kind |-> kind, fv |-> {<<fs[j].n, var(j)>> : j \in ok},
        ext |-> Nth(exts, H(h0, 2) % Cardinality(exts)), rm |-> 0]
-Init ==
+(* ---- histories (DocModel, "Receivers and entry points") ---- *)
+(* documents under test: root-kind documents -- the bare root, every single optional root field, all and *)
+(* all-but-one (with extension and unknown key): every subset pattern of fields that the prior document   *)
+(* had and the document under test lacks / has too -- plus one document per other kind with everything   *)
+(* populated (so that the receiver's nested objects of every kind are overwritten as well).               *)
+HistTargets ==
+   UNION {LET kind == Root(v) IN
+          {Case("grow", kind, {}, "none"), Case("grow", kind, {}, "xu"), Case("full", kind, FullFv(kind, "v"), "xu")}
+          \cup {Case("grow", kind, {<<n, "v">>}, "none") : n \in FullFields(kind)}
+          \cup {Case("full", kind, FullFv(kind, "v") \ {<<n, "v">>}, "none") : n \in FullFields(kind)} : v \in {2, 3}}
+   \cup {Case("full", kind, FullFv(kind, "v"), "none") : kind \in {k \in Kinds : ~IsRoot(k) /\ FullFields(k) # {}}}
+RECURSIVE SeqsUpTo(_, _)
+SeqsUpTo(S, n) == IF n = 0 THEN {<<>>} ELSE LET shorter == SeqsUpTo(S, n - 1) IN shorter \cup {Append(q, x) : q \in shorter, x \in S}
+Hists(v) == {[entry |-> e, prior |-> q] : e \in HistEntries(v), q \in SeqsUpTo(PriorNames, MaxHist) \ {<<>>}}
+
+InitCase ==
    /\ \/ \E kind \in Kinds : \E ext \in ExtModes(kind) : gcase = Case("grow", kind, {}, ext)
       \/ \E kind \in Kinds, var \in {"v", "ref", "alt", "xref"} : \E ext \in FullExt(kind) :
             /\ FullFields(kind) # {}
@@ -132,6 +152,10 @@ Init ==
             /\ gcase = Case("full", kind, FullFv(kind, var), ext)
       \/ \E ver \in {2, 3}, i \in 1..NSpecialAll : gcase = [mode |-> "special", ver |-> ver, i |-> i]
       \/ \E ki \in DOMAIN KindSeq, r \in 1..RandPerKind : gcase = RandCase(ki, r)
+
+Init ==
+   /\ \/ ghist = NoHist /\ InitCase
+      \/ gcase \in HistTargets /\ ghist \in Hists(Ver(gcase.kind))
    /\ gdoc = DocOf(gcase)
 
 Names(fv) == {p[1] : p \in fv}
@@ -148,12 +172,15 @@ Shrink ==
    /\ gcase.mode = "full"
    /\ gcase.rm < MaxShrink
    /\ \E p \in gcase.fv : gcase' = [gcase EXCEPT !.fv = @ \ {p}, !.rm = @ + 1]
-Next == (Grow \/ Shrink) /\ gdoc' = DocOf(gcase')
+Next == ghist = NoHist /\ (Grow \/ Shrink) /\ gdoc' = DocOf(gcase') /\ UNCHANGED ghist
 Spec == Init /\ [][Next]_vars
 
 (* the case as written to cases.ndjson: descriptor (for reports, classes, replay) and document *)
 Descr(cc) == IF cc.mode = "special" THEN cc
              ELSE [mode |-> cc.mode, kind |-> cc.kind, ext |-> cc.ext,
                    fv |-> {[f |-> p[1], var |-> p[2]] : p \in cc.fv}]
-Emit == CSVWrite("%1$s", <<ToJson([d |-> Descr(gcase), ver |-> VerOf(gcase), doc |-> gdoc, ext |-> ExtOf(VerOf(gcase), gdoc)])>>, "cases.ndjson")
+(* a history case carries its prior documents (and the external resources of all of them) *)
+HistOf(v, h) == [entry |-> h.entry, prior |-> [i \in DOMAIN h.prior |-> [name |-> h.prior[i], doc |-> PriorDoc(v, h.prior[i])]]]
+Emit == CSVWrite("%1$s", <<ToJson([d |-> Descr(gcase), ver |-> VerOf(gcase), doc |-> gdoc, ext |-> ExtOf(VerOf(gcase), gdoc),
+                                   hist |-> HistOf(VerOf(gcase), ghist)])>>, "cases.ndjson")
 =============================================================================
